@@ -410,6 +410,12 @@ func ReachF(fn *ssa.Function, from *ssa.BasicBlock, cut map[Edge]bool) (seen map
 // particular edge), with a set of values known to be non-nil: a phi that
 // carries one of them on the entering edge cannot compare equal to nil.
 func ReachFN(fn *ssa.Function, from *ssa.BasicBlock, fromPred int, cut map[Edge]bool, nonNil map[ssa.Value]bool) (seen map[int]bool, prev map[int]int) {
+	return ReachFE(fn, from, fromPred, cut, func(v ssa.Value, pred, blk *ssa.BasicBlock) bool { return nonNil[v] })
+}
+
+// ReachFE is ReachFN with the non-nil knowledge given per edge: nonNilOn(v,
+// pred, blk) says that v cannot be nil when control passes from pred to blk.
+func ReachFE(fn *ssa.Function, from *ssa.BasicBlock, fromPred int, cut map[Edge]bool, nonNilOn func(v ssa.Value, pred, blk *ssa.BasicBlock) bool) (seen map[int]bool, prev map[int]int) {
 	type state struct{ b, ob, op int }
 	seen = map[int]bool{from.Index: true}
 	prev = map[int]int{}
@@ -443,7 +449,7 @@ func ReachFN(fn *ssa.Function, from *ssa.BasicBlock, fromPred int, cut map[Edge]
 					if st.op >= len(ph.Edges) {
 						continue
 					}
-					if nonNil[ph.Edges[st.op]] {
+					if st.op < len(ob.Preds) && nonNilOn(ph.Edges[st.op], ob.Preds[st.op], ob) {
 						if v, nilWhenTrue, isNC := NilCheck(e.cond); isNC && v == ssa.Value(ph) && e.truth == nilWhenTrue {
 							infeasible = true
 						}
